@@ -32,6 +32,7 @@ def family(rp):
     f.add("field-through-mutable-receiver", "class A\n    def v: Int := 1\ndef z := A()\nz.v := 2", "accept")
     f.add("field-through-fin-self", "class A\n    def v: Int := 1\n    def m(fin self) => self.v := 3", "reject")
     f.add("field-through-mutable-self", "class A\n    def v: Int := 1\n    def m(self) => self.v := 3", "accept")
+    f.add("nested-field-mutable-chain", "class B\n    def w: Int := 1\nclass A\n    def b: B := B()\ndef z := A()\nz.b.w := 2", "accept")
     f.add("self-outside-class", "self.v := 3", "reject")
     f.add("self-in-function-outside-class", "def f() => self.v := 3", "reject")
     f.add("one-branch-shadow-then-reassign-fin", "def fin x := 10\nif x > 5 then\n    def x := 1\n    print(x)\nelse\n    print(\"small\")\nx := 5\nprint(x)\n", "reject")
@@ -178,6 +179,74 @@ def ob_reassign_order(run, mir, rp, fam):
     e2.prove(run, ob, ex, [], conj(claims), {}, fam.as_replay("reassign-order:"))
 
 
+def ob_reassignable(run, mir, rp, fam):
+    ob = run.ob("reassignable-chain", "E2", "check_reassignable on a property access: a tuple pattern on either side is refused, errors of the "
+                "recursive checks propagate, and otherwise the identifier chain is Call(receiver chain, property chain) - receiver "
+                "first - so that the per-field mutability test sees the fields in access order; any other node is judged by "
+                "Identifier::try_from alone", ["check_reassignable"])
+    fn = e2.find1(mir, file=CALL_RS, name="check_reassignable")
+    ex = Exec(mir, max_paths=5000)
+    st = State()
+    inst, _ = ckern.mk_ast("instance", opq("instance.node", "Node"))
+    prop, _ = ckern.mk_ast("property", opq("property.node", "Node"))
+    ibox, pbox = Ref(ex.new_cell(st, inst)), Ref(ex.new_cell(st, prop))
+    node = ckern.mk_node("PropertyCall", {"instance": ibox, "property": pbox})
+    ast, _ = ckern.mk_ast("ast", node)
+    ends = e2.run_kernel(run, ex, fn, [Ref(ex.new_cell(st, ast))], st)
+    claims, n_ok = [], 0
+    IT = "Result<Identifier, Vec<TypeErr>>"
+    for p in ends:
+        if p.kind != "return":
+            raise Unsupported(f"unexpected path end {p}")
+        c = conj(p.cond)
+        s = p.state
+        kind = result_kind(p)
+        rec = calls(p, "check_reassignable")
+        by = {}
+        for ev in rec:
+            a0 = ev["args"][0]
+            if z3.eq(ev["argvals"][0], ex.to_val(s, pbox)):
+                by["property"] = ev
+            elif z3.eq(ev["argvals"][0], ex.to_val(s, ibox)):
+                by["instance"] = ev
+        spec = [z3.BoolVal("property" in by)]
+        if "property" in by:
+            rp_ = by["property"]["ret"]
+            dp = ex.discr(s, rp_, IT)
+            idp = ex.project(s, ex.project(s, rp_, ("v", "Ok")), ("f", 0), "Identifier")
+            dip = ex.discr(s, idp, "Identifier")
+            spec.append(z3.Implies(dp == 1, z3.BoolVal(kind == "Err")))
+            spec.append(z3.Implies(z3.And(dp == 0, dip == 1), z3.BoolVal(kind == "Err")))      # Multi property
+            if "instance" in by:
+                ri = by["instance"]["ret"]
+                di = ex.discr(s, ri, IT)
+                idi = ex.project(s, ex.project(s, ri, ("v", "Ok")), ("f", 0), "Identifier")
+                dii = ex.discr(s, idi, "Identifier")
+                spec.append(z3.Implies(di == 1, z3.BoolVal(kind == "Err")))
+                spec.append(z3.Implies(z3.And(di == 0, dii == 1), z3.BoolVal(kind == "Err")))  # Multi receiver
+                if kind == "Ok":
+                    n_ok += 1
+                    r = p.ret.fields[0]
+                    okshape = z3.BoolVal(False)
+                    if isinstance(r, Agg) and r.ty == "Identifier" and r.variant == "Single" and isinstance(r.fields[1], Agg) \
+                            and r.fields[1].variant == "Call":
+                        call = r.fields[1]
+                        sp_ = ex.project(s, idp, ("v", "Single"))
+                        si_ = ex.project(s, idi, ("v", "Single"))
+                        want_prop = ex.project(s, sp_, ("f", 1), "IdentiCall")
+                        want_inst = ex.project(s, si_, ("f", 1), "IdentiCall")
+                        okshape = z3.And(ex.to_val(s, call.fields[0]) == ex.to_val(s, want_inst),
+                                         ex.to_val(s, call.fields[1]) == ex.to_val(s, want_prop))
+                    spec.append(z3.And(dp == 0, dip == 0, di == 0, dii == 0, okshape))
+            else:
+                spec.append(z3.BoolVal(kind == "Err"))
+        claims.append(z3.Implies(c, conj(spec)))
+    if not n_ok:
+        raise Unsupported("no Ok path")
+    e2.prove(run, ob, ex, [], conj(claims), {}, fam.as_replay("reassignable:", only=["field-", "nested-field", "tuple-"]))
+    run.samples.append({"obligation": ob.id, "paths": len(ends), "ok_paths": n_ok})
+
+
 def ob_insert_flag(run, mir, rp, fam):
     ob = run.ob("mutability-recorded", "E2", "id_from_var records every variable with the flag `mutable && field-mutable` "
                 "(all four arms, loop bodies from a havocked loop state)", ["id_from_var"])
@@ -224,7 +293,7 @@ def run(run):
                "outside: shadowing offsets (var_mapping), tuple destructuring through match_name, fin self / fin fields in the unifier")
     run.trusted += ["rustc nightly MIR dump", "mirsym MIR semantics", "z3"]
     run.bounds = {"entries_per_name": 2, "paths": "all paths, loops cut at headers"}
-    for f in (ob_closure, ob_outer, ob_reassign_order, ob_insert_flag):
+    for f in (ob_closure, ob_outer, ob_reassign_order, ob_reassignable, ob_insert_flag):
         try:
             f(run, mir, rp, fam)
         except Unsupported as e:
